@@ -92,7 +92,7 @@ def out_of_domain(term, bounds):
 def real(case):
     k = case['kind']
     if k == 'mux':
-        r = quiet(muxreal.run_mux, case['term'], case['items'], bounds=case.get('bounds', True), prelude=case.get('prelude'), share=case.get('share', False))
+        r = quiet(muxreal.run_mux, case['term'], case['items'], bounds=case.get('bounds', True), prelude=case.get('prelude'), share=case.get('share', False), two_stores=case.get('two_stores'))
         r['chunks'] = muxreal.trunc_chunks(r['chunks'])
         return r
     if k == 'raw':
@@ -140,10 +140,26 @@ def add_shared(case, rng):
     return c
 
 
-def with_preludes(cases, rng, frac=0.12, share_frac=0.05):
-    """every case, and for a fraction of them additionally the re-subscription variant / the shared-operator variant"""
+def add_two_stores(case, rng):
+    """the pipeline of a mux case cut at a top-level stage boundary, each part under its own state store"""
+    if case.get('kind') != 'mux' or len(case.get('term') or []) < 2 or case.get('share') or case.get('prelude'):
+        return None
+    if any(s[0] == 'route' for s in muxgen.walk(case['term'])):
+        return None
+    c = dict(case)
+    c['two_stores'] = rng.randrange(1, len(case['term']))
+    return c
+
+
+def with_preludes(cases, rng, frac=0.12, share_frac=0.05, stores_frac=0.06):
+    """every case, and for a fraction of them additionally the re-subscription variant / the shared-operator variant / the
+    two-stores variant"""
     for c in cases:
         yield c
+        if rng.random() < stores_frac:
+            p = add_two_stores(c, rng)
+            if p is not None:
+                yield p
         if rng.random() < frac:
             p = add_prelude(c, rng)
             if p is not None:
@@ -169,6 +185,21 @@ def prelude_violation(case, r):
                     return ('shared operator objects: %s over %s with every stage built once and applied at each of its places emits %s while '
                             'item %d is processed; with separately built equal operators it emits %s'
                             % (json.dumps(case['term'])[:200], case['items'], json.dumps(a)[:200], i - 1, json.dumps(b)[:200]))
+        return None
+    if case.get('two_stores') and not case.get('prelude'):
+        one = dict(case)
+        del one['two_stores']
+        f = real(one)
+        if r['chunks'] != f['chunks']:
+            for i, (a, b) in enumerate(zip(r['chunks'], f['chunks'])):
+                if a != b:
+                    return ('two state stores: %s over %s with the stages before position %d and the rest under two with_memory_store in '
+                            'sequence emits %s while item %d is processed; under one store it emits %s'
+                            % (json.dumps(case['term'])[:200], case['items'], case['two_stores'], json.dumps(a)[:200], i - 1, json.dumps(b)[:200]))
+        for lab, tr in sorted((r.get('bounds') or {}).items()):
+            w = None if any(e[0] in ('e', 'x') for e in tr) else wf_monitor(tr)
+            if w:
+                return 'two state stores: at the boundary %s of %s: %s' % (lab, json.dumps(case['term'])[:200], w)
         return None
     if not case.get('prelude'):
         return None
